@@ -668,6 +668,18 @@ func execJoinQueries(d *xdb, r *hx.Rng, t1, t2, t3 xtable) {
 		}
 		d.query(q, "exact", "join")
 	}
+	// ON conditions of three and four predicates with AND and OR in every order: AND binds tighter than OR
+	// whichever comes first (ninth seeded round: a parser that reads `p AND q OR r` as `p AND (q OR r)`)
+	for _, jt := range jts {
+		for _, on := range []string{
+			fmt.Sprintf("t1.k = t2.k AND t1.a = %d OR t2.a = %d", r.Range(0, 3), r.Range(0, 3)),
+			fmt.Sprintf("t1.a = %d OR t1.k = t2.k AND t2.a = %d", r.Range(0, 3), r.Range(0, 3)),
+			fmt.Sprintf("t1.k = t2.k AND t1.a >= %d OR t1.k = t2.k AND t2.c = true", r.Range(1, 3)),
+			fmt.Sprintf("t1.a = %d AND t2.a = %d OR t1.k = t2.k AND t1.c = t2.c OR t2.a = %d", r.Range(0, 3), r.Range(0, 3), r.Range(0, 3)),
+		} {
+			d.query("SELECT t1.id, t2.id, t1.k, t2.a FROM t1 "+jt+" t2 ON "+on, "exact", "join")
+		}
+	}
 	// self-join under two aliases, alias hides the name, chains of two joins
 	d.query("SELECT x.id, y.id FROM t1 x JOIN t1 y ON x.k = y.k", "exact", "join")
 	d.query("SELECT x.id, y.id FROM t1 x LEFT JOIN t1 y ON x.a = y.k", "exact", "join")
